@@ -134,7 +134,8 @@ b("c03-complement-on-dfa-only-symbols-of-trash", "C03", FA + "epsilon_nfa.py",
   "                if state_to:\n                    pass\n                enfa.add_transition(state, symbol, trash)",
   "completion-depends-on-delta")
 b("c03-trash-bare-ctor", "C03", FA + "epsilon_nfa.py",
-  "        trash = State(\"TrashNode\")", "        trash = State(\"Trash#Node\")", "unproven-name")
+  "        trash = State(\"TrashNode\")\n        idx = 0\n        while trash in self._states:\n            trash = State(\"TrashNode\" + str(idx))\n            idx += 1\n",
+  "        trash = State(\"TrashNode\")\n", "trash-name")
 p("c03-p-inter-locals", "C03", FA + "epsilon_nfa.py",
   "        for st0 in self.eclose_iterable(self.start_states):\n            for st1 in other.eclose_iterable(other.start_states):",
   "        starts0 = self.eclose_iterable(self.start_states)\n        starts1 = other.eclose_iterable(other.start_states)\n        for st0 in starts0:\n            for st1 in starts1:")
@@ -321,9 +322,13 @@ b("c11-start-rules-all-states", "C11", CFGF,
   "        for final_state in other.final_states:\n            new_body = [", "        for final_state in other.states:\n            new_body = [",
   "start-rules")
 b("c11-notimplemented-to-typeerror", "C11", CFGF,
-  "            if not other.is_deterministic():\n                other = other.to_deterministic()\n        else:\n            raise NotImplementedError\n        if other.is_empty():",
-  "            if not other.is_deterministic():\n                other = other.to_deterministic()\n        else:\n            raise TypeError\n        if other.is_empty():",
+  "            other = other.to_deterministic()\n        else:\n            raise NotImplementedError\n        if other.is_empty():",
+  "            other = other.to_deterministic()\n        else:\n            raise TypeError\n        if other.is_empty():",
   "dispatcher-raises-only-NotImplementedError")
+b("c11-conditional-determinise", "C11", CFGF,
+  "            other = other.to_deterministic()\n        else:\n            raise NotImplementedError\n        if other.is_empty():",
+  "            if not other.is_deterministic():\n                other = other.to_deterministic()\n        else:\n            raise NotImplementedError\n        if other.is_empty():",
+  "successor-index")
 b("c11-pda-final-only-pda", "C11", PDAF,
   "            if (state_in in self._final_states and state_dfa in\n                    final_state_other):",
   "            if (state_in in self._final_states):", "product-final-iff-both")
@@ -334,9 +339,9 @@ b("c11-pda-index-set", "C11", PDAF,
   "                        for next_state_dfa in next_states_dfa:\n                            pda.add_transition(",
   "                        for next_state_dfa in [other(state_dfa, symbol_dfa)[0]]:\n                            pda.add_transition(",
   "successor-index")
-p("c11-p-always-determinise", "C11", CFGF,
-  "            if not other.is_deterministic():\n                other = other.to_deterministic()\n        else:\n            raise NotImplementedError\n        if other.is_empty():",
-  "            other = other.to_deterministic()\n        else:\n            raise NotImplementedError\n        if other.is_empty():")
+p("c11-p-determinise-local", "C11", CFGF,
+  "            other = other.to_deterministic()\n        else:\n            raise NotImplementedError\n        if other.is_empty():",
+  "            dfa = other.to_deterministic()\n            other = dfa\n        else:\n            raise NotImplementedError\n        if other.is_empty():")
 
 # ----------------------------------------------------------------------------- C13
 b("c13-final-state-bare-name", "C13", PDAF,
@@ -507,7 +512,7 @@ b("c16-tofst-swapped-endpoints", "C16", FA + "finite_automaton.py",
   "            fst.add_transition(s_from.value,\n                               symb_by.value,\n                               s_to.value,",
   "            fst.add_transition(s_to.value,\n                               symb_by.value,\n                               s_from.value,", "to_fst-identity")
 p("c16-p-union-locals", "C16", FSTF,
-  "        self._copy_into(union_fst, state_renaming, 0)\n        # pylint: disable=protected-access\n        other_fst._copy_into(union_fst, state_renaming, 1)",
+  "        # pylint: disable=protected-access\n        self._copy_into(union_fst, state_renaming, 0)\n        other_fst._copy_into(union_fst, state_renaming, 1)",
   "        for idx, operand in enumerate((self, other_fst)):\n            operand._copy_into(union_fst, state_renaming, idx)")
 
 # ----------------------------------------------------------------------------- C17
@@ -515,8 +520,10 @@ IGF = "pyformlang/indexed_grammar/indexed_grammar.py"
 RLF = "pyformlang/indexed_grammar/rules.py"
 ROFI = "pyformlang/indexed_grammar/rule_ordering.py"
 b("c17-optim-dropped", "C17", IGF,
-  "        rules = Rules(l_rules, self.rules.optim)\n        return IndexedGrammar(rules)", "        rules = Rules(l_rules)\n        return IndexedGrammar(rules)",
+  "        rules = Rules(l_rules, self.rules.optim)\n        return IndexedGrammar(rules, self.start_variable)", "        rules = Rules(l_rules)\n        return IndexedGrammar(rules, self.start_variable)",
   "optim-forwarded")
+b("c17-start-variable-dropped", "C17", IGF,
+  "        return IndexedGrammar(rules, self.start_variable)", "        return IndexedGrammar(rules)", "start_variable-forwarded")
 b("c17-optim-8-missing", "C17", RLF,
   "        elif optim == 8:\n            self._rules = rule_ordering.order_random()\n", "", "optim-1..8-handled")
 b("c17-order-drops-rules", "C17", ROFI,
@@ -584,5 +591,19 @@ b("c20-ebnf-no-minimize", "C20", "pyformlang/rsa/recursive_automaton.py",
 p("c20-p-reader-order", "C20", FAF,
   "            if graph.nodes[node].get(\"is_start\", False):\n                enfa.add_start_state(node)\n            if graph.nodes[node].get(\"is_final\", False):\n                enfa.add_final_state(node)\n        return enfa",
   "            attrs = graph.nodes[node]\n            if attrs.get(\"is_final\", False):\n                enfa.add_final_state(node)\n            if attrs.get(\"is_start\", False):\n                enfa.add_start_state(node)\n        return enfa")
+
+# ----------------------------------------------------------------------------- repaired defects must be reported again
+b("fx-f12", "C14", LLF, "            if current == \"$\":\n                raise NotParsableException\n", "", "attribute-on-sentinel")
+b("fx-f20", "C17", "pyformlang/indexed_grammar/consumption_rule.py", "other.f_parameter == self.f_parameter", "other.f_parameter() == self.f_parameter", "property-called")
+b("fx-f27", "C19", IGF, "        f_rules = self.rules.consumption_rules.get(\n            rule.production, [])", "        f_rules = self.rules.consumption_rules.setdefault(\n            rule.production, [])", "operand-write:self.rules._consumption_rules")
+b("fx-f25", "C19", "pyformlang/pda/transition_function.py", "        return copy.deepcopy(self._transitions)\n", "        return self._transitions\n", "returns-alias")
+b("fx-f21", "C18", FCF, "    for next_state in list(processed.generator(begin_idx)):", "    for next_state in processed.generator(begin_idx):", "insert-under-iteration")
+b("fx-f16", "C16", FA + "finite_automaton.py", "            output = [] if symb_by == Epsilon() else [symb_by.value]\n", "            output = [symb_by.value]\n", "epsilon-edge-output")
+b("fx-f05", "C05", RDF, "        return bool(self._components) and self._components[0] == \"(\"", "        return self._components[0] == \"(\"", "token-index-unguarded")
+b("fx-f32", "C10", CFGF, "        for variable in self._variables:\n            temp = Variable(str(variable.value) + SUBS_SUFFIX + str(idx))", "        for variable in self._variables:\n            temp = Variable(variable.value + SUBS_SUFFIX + str(idx))", "renamed-variable-name-total")
+b("fx-f33", "C16", FSTF, "            new_state = str(state) + str(counter)\n            while new_state", "            new_state = state + str(counter)\n            while new_state", "renamed-state-name-total")
+b("fx-f28", "C20", CFGF, "                if type_component != \"TER\" and (\n                        body_component[0] in string.ascii_uppercase or\n                        type_component == \"VAR\"):\n                    body_var = Variable(body_component)", "                if (\n                        body_component[0] in string.ascii_uppercase or\n                        type_component == \"VAR\"):\n                    body_var = Variable(body_component)", "classifies:Terminal/upper/TER")
+b("fx-f26", "C19", "pyformlang/pda/cfg_variable_converter.py", "        if state.index_cfg_converter is None or \\\n                self._inverse_states_d.get(state) != state.index_cfg_converter:\n            self._set_index_state(state)", "        if state.index_cfg_converter is None:\n            self._set_index_state(state)", "stale-index-read")
+b("fx-f18", "C17", FSTF, "                    str((start_state, start_variable, state_p)),", "                    str((start_state, \"S\", state_p)),", "start-variable-used")
 
 VARIANTS = V
